@@ -3,6 +3,7 @@ package main
 // Additional contract-language forms and library models (kept in a separate file).
 
 import (
+	"fmt"
 	"go/ast"
 	"go/types"
 	"strings"
@@ -98,6 +99,47 @@ func (ctx *EvalCtx) specialForm(name string, x *ast.CallExpr) (CV, bool) {
 			ctx.fail("deref of non-pointer")
 		}
 		return CV{ex.load(ctx.state(), v.t, pt.Elem()), pt.Elem()}, true
+	case "any":
+		// any(T): an arbitrary but fixed value of type T - the same one in every clause of the run, so a clause
+		// proved about it holds for every value of T (a universally quantified logical variable)
+		scope := ctx.calleeFn
+		if scope == nil {
+			scope = ctx.fn
+		}
+		if scope == nil {
+			ctx.fail("any() needs a function scope")
+		}
+		name := types.ExprString(x.Args[0])
+		T := ex.W.lookupType(scope, name)
+		if T == nil {
+			ctx.fail("unknown identifier %s (type)", name)
+		}
+		v := f.Var("any."+sanitize(name), ex.tm.SortOf(T))
+		ex.assumes = append(ex.assumes, ex.tm.WellTyped(v, T, 1))
+		return CV{v, T}, true
+	case "visited":
+		// visited(k), in an invariant of a range-over-map loop: key k was already handed out by the iteration
+		if ctx.frame == nil || ctx.block == nil {
+			ctx.fail("visited() is only available in invariants of a range-over-map loop")
+		}
+		for _, in := range ctx.block.Instrs {
+			nx, ok := in.(*ssa.Next)
+			if !ok || nx.IsString {
+				continue
+			}
+			rng, ok := nx.Iter.(*ssa.Range)
+			if !ok {
+				continue
+			}
+			mt, ok := types.Unalias(rng.X.Type()).Underlying().(*types.Map)
+			if !ok {
+				continue
+			}
+			id := fmt.Sprintf("IT.%s.%s", sanitize(ctx.frame.key()), rng.Name())
+			k := ctx.eval(x.Args[0])
+			return CV{f.Select(ex.comp(ctx.state(), id, ArraySort(ex.tm.SortOf(mt.Key()), SBool)), k.t), nil}, true
+		}
+		ctx.fail("visited() is only available in invariants of a range-over-map loop")
 	case "unbox":
 		// the struct value an interface value was made from (x := T{...}; f(x) with f taking an interface)
 		v := ctx.eval(x.Args[0])
